@@ -12,7 +12,7 @@ package parsigex
 // decoded message (C14; third-party methods called on decoded values are assumed not to panic on what the decoders
 // accept, with the exceptions recorded as findings).
 //@ func (m *ParSigEx) handle
-//@ props C10 C01 C14 C18
+//@ props C10 C01 C14 C18 C07
 //@ nopanic
 //@ safe nil
 //@ callreq sub: a2 == duty && duty == core.DutyFromProto(pb.GetDuty()) && m.gaterFunc(duty)
